@@ -1,6 +1,7 @@
 package svc
 
 import (
+	"errors"
 	"fmt"
 	"sort"
 	"strconv"
@@ -160,7 +161,7 @@ func (w *World) Enabled(program []string, pc int) []string {
 		js = append(js, j)
 	}
 	w.mu.Unlock()
-	sort.Slice(js, func(i, k int) bool { return js[i].Seq < js[k].Seq })
+	sort.Slice(js, func(i, k int) bool { return jobLess(js[i], js[k]) })
 	for _, j := range js {
 		out = append(out, "step:"+j.Kind)
 	}
@@ -170,8 +171,67 @@ func (w *World) Enabled(program []string, pc int) []string {
 	return out
 }
 
-// Apply performs an event ("api:<call>" or "step:<kind>").
+// PickSep separates an event from the tag its tagging job has to be started for.  When several tags
+// wait for evaluation the service takes the first one its map iteration yields; the explorer owns
+// that choice by naming the tag in the event: while the event is applied the hook verifhook.Skip
+// passes over every other eligible tag (the iteration order of a Go map is unspecified, so every
+// order is a behaviour of the real code).
+const PickSep = "\tpick="
+
+// ErrPick: the service started the tagging job for another tag than the event names.
+var ErrPick = errors.New("tag pick differs")
+
+// Apply performs an event ("api:<call>" or "step:<kind>", optionally followed by PickSep and a tag
+// name).  Afterwards LastPick/LastCands tell whether a tagging job started and which tags it could
+// have been started for.
 func (w *World) Apply(ev string) error {
+	base, want, _ := strings.Cut(ev, PickSep)
+	w.mu.Lock()
+	before := w.tagBegins
+	w.mu.Unlock()
+	w.LastPick, w.LastCands = "", nil
+	w.mu.Lock()
+	w.wantPick = want
+	w.epoch++
+	w.mu.Unlock()
+	err := w.apply(base)
+	w.mu.Lock()
+	w.wantPick = ""
+	began, name := w.tagBegins > before, w.lastTagBegin
+	w.mu.Unlock()
+	if err != nil {
+		return err
+	}
+	if began {
+		w.LastPick = name
+		st := w.Mgr.VerifDump()
+		unc := map[string]bool{}
+		for _, t := range st.Tags {
+			unc[t.Name] = len(t.Uncertain) != 0
+		}
+		for _, t := range st.Tags {
+			if !unc[t.Name] {
+				continue
+			}
+			ok := true
+			for _, r := range t.ReferencedTags {
+				if unc[r] {
+					ok = false
+				}
+			}
+			if ok {
+				w.LastCands = append(w.LastCands, t.Name)
+			}
+		}
+		sort.Strings(w.LastCands)
+	}
+	if want != "" && w.LastPick != want {
+		return fmt.Errorf("%w: event %q, the service picked %q (eligible %v)", ErrPick, ev, w.LastPick, w.LastCands)
+	}
+	return nil
+}
+
+func (w *World) apply(ev string) error {
 	if call, ok := strings.CutPrefix(ev, "api:"); ok {
 		return w.ApplyAPI(call)
 	}
